@@ -282,7 +282,8 @@ void fam_copy(Tape& t, Stats& st) {
 }
 
 // ---------- (f) FileWriter open-flag matrix ----------
-void filewriter_case(unsigned flags, bool exists, const std::vector<uint8_t>& old, const std::vector<uint8_t>& data, Stats& st) {
+// how: 0 = one Write; 1 = data split over three Write calls; 2 = writer move-constructed first, data written through the new object
+void filewriter_case(unsigned flags, bool exists, const std::vector<uint8_t>& old, const std::vector<uint8_t>& data, Stats& st, unsigned how = 0) {
 	using FW = Stream::FileWriter;
 	std::string path = scratch_path("c14_fw.bin");
 	remove(path.c_str());
@@ -291,12 +292,14 @@ void filewriter_case(unsigned flags, bool exists, const std::vector<uint8_t>& ol
 	std::string what; bool invalidArg = false, threw = false;
 	try {
 		FW w(path, static_cast<FW::OpenMode>(flags));
-		w.Write(data.data(), data.size());
+		if (how == 1) { size_t a = data.size() / 3, b = data.size() / 2; w.Write(data.data(), a); w.Write(data.data() + a, b - a); w.Write(data.data() + b, data.size() - b); }
+		else if (how == 2) { FW w2(std::move(w)); size_t a = data.size() / 2; w2.Write(data.data(), a); w2.Write(data.data() + a, data.size() - a); }
+		else w.Write(data.data(), data.size());
 	}
 	catch (const std::invalid_argument& e) { invalidArg = true; threw = true; what = e.what(); }
 	catch (const std::exception& e) { threw = true; what = e.what(); }
 	std::vector<uint8_t> now; bool nowExists = read_file(path, now);
-	std::ostringstream ctx; ctx << "flags=" << flags << (exists ? " existing(" + std::to_string(old.size()) + "B)" : " absent") << " data=" << data.size() << "B";
+	std::ostringstream ctx; ctx << "how=" << how << " flags=" << flags << (exists ? " existing(" + std::to_string(old.size()) + "B)" : " absent") << " data=" << data.size() << "B";
 	if ((!canExisting && !canNew) || (trunc && app)) {
 		V_CHECK(invalidArg, "invalid flag set accepted or wrong error type (" << what << "): " << ctx.str());
 		V_CHECK(nowExists == exists && (!exists || now == old), "file system changed by a refused open: " << ctx.str());
@@ -322,7 +325,11 @@ void filewriter_case(unsigned flags, bool exists, const std::vector<uint8_t>& ol
 void fam_filewriter(Tape& t, Stats& st) {
 	unsigned flags = unsigned(t.below(16)); bool exists = t.flag();
 	auto old = t.bytes(t.below(40)); auto data = t.bytes(t.below(40));
-	filewriter_case(flags, exists, old, data, st);
+	if (t.below(6) == 0) data = t.expand(t.pick<uint32_t>({4095, 4096, 4097, 8191, 8192, 8193, 65536, 70001}));     // beyond one stream buffer
+	if (t.below(8) == 0) old = t.expand(t.pick<uint32_t>({4096, 8192, 8193, 20000}));
+	unsigned how = unsigned(t.below(3));
+	filewriter_case(flags, exists, old, data, st, how);
+	st.cls("fw:how" + std::to_string(how));
 	st.cls("fam:filewriter");
 }
 } // namespace
@@ -370,6 +377,9 @@ void run_sweep(Stats& st) {
 				std::vector<uint8_t> old = variant == 2 ? std::vector<uint8_t>{} : std::vector<uint8_t>{'h', 'e', 'l', 'l', 'o'};
 				std::vector<uint8_t> data = variant == 1 ? std::vector<uint8_t>{} : std::vector<uint8_t>{'X', 'Y'};
 				filewriter_case(flags, ex, old, data, st);
+				// the same cell with split writes / a moved writer, and with data larger than a stream buffer
+				std::vector<uint8_t> big(70001); for (size_t i = 0; i < big.size(); ++i) big[i] = uint8_t(i * 31 + (i >> 9));
+				for (unsigned how = 1; how < 3; ++how) { filewriter_case(flags, ex, old, data, st, how); if (variant == 0) filewriter_case(flags, ex, old, big, st, how); st.evaluations += 2; }
 			}
 	// (a) all 2-step histories over the boundary table on a 5-byte buffer
 	for (unsigned o1 = 0; o1 < 5; ++o1) for (unsigned c1 = 0; c1 < 14; ++c1) for (unsigned o2 = 0; o2 < 5; ++o2) for (unsigned c2 = 0; c2 < 14; ++c2) {
